@@ -142,7 +142,7 @@ def setup(contract, cfgname, D, registry, repo):
     st.env.update(base_env(alg))
     # parameters, in the order of the real signature
     sig = [a.arg for a in fn.args.args]
-    declared = set(contract.arrays) | set(contract.tuples) | set(contract.scalars) | set(getattr(contract, 'objs', ())) | {'cls', 'self'}
+    declared = set(contract.arrays) | set(contract.tuples) | set(contract.scalars) | set(getattr(contract, 'objs', ())) | set(getattr(contract, 'objtuples', {})) | {'cls', 'self'}
     flat = set(a.split('.')[0] for a in contract.arrays)
     for p in sig:
         if p not in declared and p not in flat: raise Undecided('parameter %r of %s is not described by the contract' % (p, contract.qual))
@@ -156,6 +156,9 @@ def setup(contract, cfgname, D, registry, repo):
     for o in getattr(contract, 'objs', ()):                 # object parameters (UTPM instances): attribute arrays named '<obj>.<attr>'
         attrs = {a.split('.', 1)[1]: View(names[a], z3.IntVal(0), 1, Dt) for a in contract.arrays if a.startswith(o + '.')}
         st.env[o] = ObjV('UTPM', attrs)
+    for t, k in getattr(contract, 'objtuples', {}).items():       # tuple-of-objects parameters (`out=(xbar,)` of the pullback wrappers): arrays named '<t>.<i>.data'
+        if cfg.get(t, 'given') is None: st.env[t] = None
+        else: st.env[t] = tuple(ObjV('UTPM', {'data': View(names['%s.%d.data' % (t, i)], z3.IntVal(0), 1, Dt)}) for i in range(k))
     st.env.setdefault('UTPM', E.TypeV('UTPM')); st.env.setdefault('operator', ModV('operator'))
     for t, k in contract.tuples.items():
         if cfg.get(t, 'given') is None: st.env[t] = None
